@@ -91,7 +91,10 @@ Generic rules added for the Roles package (all additive; the output for the earl
    by another top-level assignment of it is an immutable `let` (the next one shadows it: python may change the type of
    the value, `expr = map[v]` then `expr = f(expr.rhs)`); the last one before a nested assignment is the `let mut`;
  * `if A and B:` without `else`, where an operand is monadic (`(← …)`): nested `if A then if B then …`, so that the
-   effect of B stays behind the short-circuit.
+   effect of B stays behind the short-circuit (spec key `and_style: 'cond'` switches this statement-level rule off; the
+   expression-level short-circuit rule of `cond()` then applies);
+ * spec key `immutable_params: [name…]`: parameters that are NOT re-declared `let mut` although the body assigns to
+   them (a statement pattern shadows them instead).
 
 Additions (Cmeta package; none changes the output of a spec that does not use them):
  * a parameter that the body assigns to (`cmeta_id = str(cmeta_id)`) is re-declared `let mut p := p` at the top;
@@ -108,6 +111,15 @@ Additional generic rules: a list comprehension whose element is monadic (contain
 `(← xs.mapM (fun x => do return elt))`; a set display `{a, b}` becomes the list `[a, b]` (membership tests only);
 spec key `for_body: k` translates the body of the k-th `for` statement as a step function over `loop_state`;
 spec key `mutable_params: [p]` declares `let mut p := p` for a parameter the function re-binds.
+
+Generic rules added for the Infer group (additive; the output for the older groups is unchanged):
+ * `a and b` / `a or b` whose LATER operand runs an action (its translation contains `←`) keeps python's short circuit:
+   `(← (do if a then pure b else pure false))` - the action of `b` is run only where python evaluates `b`;
+ * `if c: T = X  elif d: T = Y  else: T = Z` (every branch one assignment to the same target) is one assignment of a
+   nested conditional expression, like the two-branch form;
+ * a nested `def` whose body is plain assignments to names followed by one `return` becomes a local `fun` with `let`s
+   (`assert isinstance(...)` lines in it are skipped like everywhere else);
+ * constants in patterns match by value AND type (`0.0` does not match `0`, `True` does not match `1`).
 """
 import ast
 import copy
@@ -363,7 +375,18 @@ class Fn:
             return '(Py.truthy %s)' % (hit if not hit.startswith('←') else '(' + hit + ')')
         if isinstance(n, ast.BoolOp):
             op = ' && ' if isinstance(n.op, ast.And) else ' || '
-            return '(' + op.join(self.cond(v) for v in n.values) + ')'
+            parts = [self.cond(v) for v in n.values]
+            if any('←' in p for p in parts[1:]):
+                # a later operand runs an action (it may raise): python's short circuit must be kept, so the operand is
+                # evaluated only on the branch on which python evaluates it
+                out = parts[-1]
+                for p in reversed(parts[:-1]):
+                    if isinstance(n.op, ast.And):
+                        out = '(← (do if %s then pure %s else pure false))' % (p, out)
+                    else:
+                        out = '(← (do if %s then pure true else pure %s))' % (p, out)
+                return out
+            return '(' + op.join(parts) + ')'
         if isinstance(n, ast.UnaryOp) and isinstance(n.op, ast.Not):
             return '(!%s)' % self.cond(n.operand)
         if isinstance(n, ast.Compare):
@@ -430,6 +453,14 @@ class Fn:
                   all(isinstance(e, ast.Name) for e in s.body[0].targets[0].elts))):
             # (an attribute / subscript target is a mutation: left to the statement patterns)
             return s.body[0].targets[0], s.body[0].value, s.orelse[0].value
+        if len(s.body) == 1 and len(s.orelse) == 1 and isinstance(s.body[0], ast.Assign) and \
+                len(s.body[0].targets) == 1 and isinstance(s.orelse[0], ast.If):
+            # `if c: T = X  elif d: T = Y  else: T = Z`: the else part is itself such a chain on the same target; its
+            # value is the IfExp `Y if d else Z` (translated by the generic rule for conditional expressions)
+            inner = self.same_assign_branches(s.orelse[0])
+            if inner is not None and ast.dump(inner[0]) == ast.dump(s.body[0].targets[0]):
+                return s.body[0].targets[0], s.body[0].value, \
+                    ast.IfExp(test=s.orelse[0].test, body=inner[1], orelse=inner[2])
         return None
 
     def same_assign_try(self, s):
@@ -539,14 +570,26 @@ class Fn:
         if isinstance(s, ast.FunctionDef) and s.name in self.spec.get('skip_defs', []):
             return                                            # translated as a function of its own
         if isinstance(s, ast.FunctionDef):
-            if not (len([b for b in s.body if not (isinstance(b, ast.Expr) and isinstance(b.value, ast.Constant))]) == 1
-                    and isinstance(s.body[-1], ast.Return)):
+            core = [b for b in s.body if not (isinstance(b, ast.Expr) and isinstance(b.value, ast.Constant))]
+            if self.spec.get('skip_isinstance_asserts', True):
+                core = [b for b in core if not (isinstance(b, ast.Assert) and isinstance(b.test, ast.Call)
+                                                and src(b.test.func) == 'isinstance')]
+            if not (core and isinstance(core[-1], ast.Return) and
+                    all(isinstance(b, ast.Assign) and len(b.targets) == 1 and isinstance(b.targets[0], ast.Name)
+                        for b in core[:-1])):
                 raise TranslationError('nested function `%s` is not a single return' % s.name)
             args = ' '.join(mangle(a.arg) for a in s.args.args)
             self.spec.setdefault('local_functions', []).append(s.name)
             ann = self.spec.get('local_function_types', {}).get(s.name)
-            self.emit(ind, 'let %s%s := fun %s => %s' % (mangle(s.name), ' : ' + ann if ann else '', args,
-                                                         self.expr(s.body[-1].value)))
+            if len(core) == 1:
+                self.emit(ind, 'let %s%s := fun %s => %s' % (mangle(s.name), ' : ' + ann if ann else '', args,
+                                                             self.expr(core[-1].value)))
+                return
+            # pure local assignments before the single return become `let`s of the local `fun`
+            self.emit(ind, 'let %s%s := fun %s =>' % (mangle(s.name), ' : ' + ann if ann else '', args))
+            for b in core[:-1]:
+                self.emit(ind + 2, 'let %s := %s' % (mangle(b.targets[0].id), self.expr(b.value)))
+            self.emit(ind + 2, self.expr(core[-1].value))
             return
         if isinstance(s, ast.Assign):
             if len(s.targets) != 1:
@@ -596,7 +639,7 @@ class Fn:
                 self.assign(ind, t, '(if %s then %s else %s)' % (self.cond(s.test), xa, ya))
                 return
             if isinstance(s.test, ast.BoolOp) and isinstance(s.test.op, ast.And) and not s.orelse and \
-                    '(←' in self.cond(s.test):
+                    self.spec.get('and_style', 'nested-if') == 'nested-if' and '(←' in self.cond(s.test):
                 inner = s
                 for v in reversed(s.test.values):
                     inner = ast.If(test=v, body=[inner] if inner is not s else s.body, orelse=[])
@@ -848,6 +891,7 @@ class Fn:
             # a parameter that the body assigns to (`units = self.units.get_unit(units)`), or that the spec lists as
             # `mutable` (re-assigned by a statement pattern), is re-bound as a mutable local
             if (nm in counts or nm in self.spec.get('mutable', [])) and nm not in explicit \
+                    and nm not in self.spec.get('immutable_params', []) \
                     and nm not in self.spec.get('state', []) and 'while_body' not in self.spec \
                     and 'for_body' not in self.spec:
                 self.emit(1, 'let mut %s := %s' % (mangle(nm), mangle(nm)))
